@@ -273,6 +273,13 @@ func runAddress(rng *Rng, n int, st *Stats, param string) ([]string, []any) {
 					t0 = append([]byte{0x51, 32}, r.Bytes(32)...)
 				}
 				t1 = append(append([]byte{0x6a, 24}, magic...), evm...)
+				if ver == 1 && k.parses && r.Side(29).Chance(50) {
+					// the relayer's own (key-path) taproot address with a well-formed data output: version 1 is for ECDSA keys only
+					if p, err := schnorr.ParsePubKey(k.raw); err == nil {
+						t0 = append([]byte{0x51, 32}, schnorr.SerializePubKey(txscript.ComputeTaprootKeyNoScript(p))...)
+						st.Count("verify:v1:schnorr-key-with-its-key-path-address")
+					}
+				}
 			}
 			mut := "genuine"
 			if r.Chance(65) {
@@ -324,6 +331,9 @@ func runAddress(rng *Rng, n int, st *Stats, param string) ([]string, []any) {
 			}
 			st.Count(fmt.Sprintf("verify:v%d:%s:accepted=%v", ver, mut, err == nil))
 			t1Mut := mut == "opreturn-bit" || mut == "opreturn-short" // the data output plays no role in version 0
+			if err == nil && ver == 1 && !k.secp {
+				st.Violate("C17", "binding", "v1-accepted-for-a-schnorr-key", "version 1 deposit verification accepts a Schnorr relayer key (version 1 exists only for ECDSA keys)", rp)
+			}
 			if err == nil && mut != "genuine" && !(t1Mut && ver == 0) {
 				st.Violate("C17", "binding", "mutated-script-accepted:"+mut, "deposit verification accepts a mutated script", rp)
 			}
